@@ -118,7 +118,7 @@ def gen_case(rng, tier, i):
             ops.append({"op": "set", "path": path, "value": _val(rng, {"sel": "sel", "unit": "unit"}.get(kind, kind)),
                         "via": rng.choice(["obj", "obj", "model"])})
         elif r < 0.80:
-            ops.append({"op": "get", "path": rng.choice([p for p, _ in leaves] + maps[1:] + ["nope", "k1.nope"]), "via": rng.choice(["obj", "model"])})
+            ops.append({"op": "get", "path": rng.choice([p for p, _ in leaves] + maps[1:] + ["nope", "k1.nope", "nope.k1", leaves[0][0] + ".x"]), "via": rng.choice(["obj", "model"])})
         elif r < 0.88:
             ops.append({"op": "rm", "path": rng.choice([p for p, _ in leaves] + maps[1:])})
         else:
